@@ -231,7 +231,8 @@ def known_string_finding(fn, args, go, im, s):
 
 
 # ----------------------------------------------------------------------------- tables
-THEOREMS_TAB = ["C19_insert_spec", "C19_remove_spec", "C19_move_spec", "C19_sort_is_permutation"]
+THEOREMS_TAB = ["C19_insert_spec", "C19_remove_spec", "C19_move_spec", "C19_unpack_spec", "C19_pack_spec", "C19_concat_spec",
+                "C19_sort_is_permutation", "C19_sort_refines_list", "C19_sort_sorted_if_consistent"]
 TAGS = {"4c": "L", "52": "R", "524e": "RN", "72": "r", "636e": "cn", "6331": "c1", "6332": "c2",
         "6731": "g1", "6732": "g2", "7331": "s1", "7332": "s2", "6c31": "l1", "6c32": "l2"}
 
@@ -746,7 +747,7 @@ def check_tables(ck, gvh, oracle, tier, corpus, tag="t"):
     for _, i, f in sfail[:3]:
         ck.violation("table.sort: %s on %s (%d failing cases)" % (f[0], lines[i].split(" ", 1)[1][:160], len(sfail)),
                      {"kind": "Go!=S", "engine": "strlib", "case": lines[i].split(" ", 1)[1], "impl": go.get("%s%d" % (tag, i), "")[:2000],
-                      "failed_predicates": f, "theorems": ["C19_sort_is_permutation"]})
+                      "failed_predicates": f, "theorems": ["C19_sort_is_permutation", "C19_sort_refines_list", "C19_sort_sorted_if_consistent"]})
     for i in (0, len(cases) // 2, len(cases) + len(sorts) // 2):
         cid = "%s%d" % (tag, i)
         if i < len(allc):
